@@ -397,26 +397,51 @@ func TestC20Race(t *testing.T) {
 		sem <- struct{}{}
 		go func(m method) {
 			defer func() { <-sem; wg.Done() }()
-			cmd := exec.Command(os.Args[0], "-test.run", "^TestC20Race$", "-test.timeout", "0")
-			cmd.Env = append(os.Environ(), "VERIF_RACE_CHILD="+m.Name, "GORACE=halt_on_error=0 history_size=5")
+			// A report whose second stack the detector could not restore ("failed to restore the stack") cannot be
+			// attributed to a party; the scenario is run again (up to 4 times) until every report is attributed.
+			var s string
+			var unattributed []raceRep
+			attributed := map[string]raceRep{}
+			for attempt := 0; attempt < 4; attempt++ {
+				cmd := exec.Command(os.Args[0], "-test.run", "^TestC20Race$", "-test.timeout", "0")
+				cmd.Env = append(os.Environ(), "VERIF_RACE_CHILD="+m.Name, "GORACE=halt_on_error=0 history_size=7")
+				if magnet {
+					cmd.Env = append(cmd.Env, "VERIF_RACE_MAGNET=1")
+				}
+				var out bytes.Buffer
+				cmd.Stdout, cmd.Stderr = &out, &out
+				done := make(chan error, 1)
+				cmd.Start()
+				go func() { done <- cmd.Wait() }()
+				select {
+				case <-done:
+				case <-time.After(180 * time.Second):
+					cmd.Process.Kill()
+					<-done
+					mu.Lock()
+					rep.Cap("scenario " + m.Name + " exceeded its wall budget (not a verdict)")
+					mu.Unlock()
+					return
+				}
+				s = out.String()
+				unattributed = nil
+				for _, r := range parseRaces(s) {
+					if r.a == "?" || r.b == "?" {
+						unattributed = append(unattributed, r)
+					} else if _, ok := attributed[r.a+"|"+r.b]; !ok {
+						attributed[r.a+"|"+r.b] = r
+					}
+				}
+				if len(unattributed) == 0 {
+					break
+				}
+				mu.Lock()
+				rep.Add("scenario_reruns_for_unrestorable_stacks", 1)
+				mu.Unlock()
+			}
 			if magnet {
-				cmd.Env = append(cmd.Env, "VERIF_RACE_MAGNET=1")
 				m.Name += " [magnet]"
 			}
-			var out bytes.Buffer
-			cmd.Stdout, cmd.Stderr = &out, &out
-			done := make(chan error, 1)
-			cmd.Start()
-			go func() { done <- cmd.Wait() }()
-			select {
-			case <-done:
-			case <-time.After(180 * time.Second):
-				cmd.Process.Kill()
-				<-done
-				rep.Cap("scenario " + m.Name + " exceeded its wall budget (not a verdict)")
-				return
-			}
-			s := out.String()
 			mu.Lock()
 			defer mu.Unlock()
 			rep.Eval(1)
@@ -441,8 +466,33 @@ func TestC20Race(t *testing.T) {
 				rep.CountDistinct(m.Name)
 			}
 			rep.Sample(40, map[string]any{"method": m.Name, "calls_during_lifecycle": calls, "lifecycle_reached": reached})
-			for _, r := range parseRaces(s) {
+			keys := make([]string, 0, len(attributed))
+			for k := range attributed {
+				keys = append(keys, k)
+			}
+			sort.Strings(keys)
+			for _, k := range keys {
+				r := attributed[k]
 				rep.Violate("C20.race."+r.a+"|"+r.b, fmt.Sprintf("data race between %s and %s (scenario: %s called concurrently with a transferring torrent)\n%s", r.a, r.b, m.Name, tailStr(r.text, 2500)), map[string]any{"method": m.Name})
+			}
+			// still unattributed after the re-runs: the same race as an attributed one of this scenario when the
+			// identified party matches; otherwise reported under the scenario's name
+			for _, r := range unattributed {
+				side := r.a
+				if side == "?" {
+					side = r.b
+				}
+				same := false
+				for _, a := range attributed {
+					if a.a == side || a.b == side {
+						same = true
+					}
+				}
+				if same {
+					rep.Add("reports_with_unrestorable_stack_matched_to_an_attributed_race", 1)
+					continue
+				}
+				rep.Violate("C20.race.unattributed|"+side+"|"+m.Name, fmt.Sprintf("data race between %s and a party whose stack the detector could not restore (scenario: %s)\n%s", side, m.Name, tailStr(r.text, 2500)), map[string]any{"method": m.Name})
 			}
 		}(m)
 	}
